@@ -6,6 +6,30 @@ import os
 VERIF = os.path.dirname(os.path.dirname(os.path.abspath(__file__)))
 
 CHECKS = {
+    "C04": dict(
+        technique="parameter-data formats transcribed into TLA+ as parsers with well-formedness predicates (T10Data.tla); "
+                  "every decoder call on generated responses is an event; TLC re-derives the expected values from the "
+                  "bytes and judges the library's flattened result (Trace_Data)",
+        text="25 response formats (standard INQUIRY, VPD 00/80/83 with all designator kinds/86/B0/B1/B2/B3, MODE SENSE "
+             "6/10 with four page kinds, READ CAPACITY 10/16, GET LBA STATUS, REPORT LUNS, RTPG both headers, REPORT "
+             "PRIORITY, READ ELEMENT STATUS, PR IN x4 with TransportIDs, READ DISC INFORMATION x3): random/boundary field "
+             "contents, 0-3 descriptors, 0/1/7 bytes of slack; every path the standard defines must be present with the "
+             "value in the bytes, list counts must honour the embedded lengths.",
+        note="Oracle = my transcription (no standards offline); generators untrusted (buffers failing T10Data!Okay are "
+             "skipped). Not judged: ATA Information VPD, READ CD sector layouts. Known findings: MODE SENSE with != 1 "
+             "pages, REPORT PRIORITY decoder.",
+        ref="6 C04"),
+    "C11": dict(
+        technique="nested consume-loops with device-chosen strides modelled in TLA+ (Decoders.tla): TLC proves Termination "
+                  "(liveness under weak fairness), VariantDecreases and WorkBounded for the guarded design and refutes the "
+                  "unguarded one; every real decoder is run on hostile buffers under a line-event budget and each run is "
+                  "judged by Trace_Decoders",
+        text="31 decoders (24 formats, ATA VPD, 5 READ CD layouts, sense) x well-formed bases with every leading byte "
+             "forced to 00/01/80/FF, adjacent pairs to 0000/FFFF/0001/0004, every truncation, random garbage; budget "
+             "2000+1000*len line events.",
+        note="Binding is a budgeted execution (sys.settrace); a terminating decoder needs < 2% of the budget (measured, "
+             "see evidence largest_budget_fraction).",
+        ref="6 C11"),
     "C08": dict(
         technique="sense positions and a curated T10 ASC/ASCQ text table in TLA+ (T10Sense.tla, self-checked by TLC); every "
                   "probed sense buffer is one event judged by Trace_Sense",
